@@ -595,7 +595,8 @@ class Engine(w_fsa.Engine):
                 # attribute to the memo if a memo-less call is right
                 try:
                     res2 = call(None)
-                    if self._compare(rh, res2, want_paths, with_words, edge_words, bound) is None:
+                    if self._compare(rh, res2, want_paths, with_words, edge_words, bound) is None and \
+                            (mode == "end" or self._vs_fsa(h, res2, with_words, L, maxlen, eff, mode) is None):
                         inv = "E.memo"
                         detail = "with a reused memo: " + detail + " (a memo-less call is right)"
                 except Exception:
